@@ -17,8 +17,8 @@ CLAIMED = {
    design="4 C12"),
  "C13": dict(
    technique="Coq proof over definitions regenerated from logics.py (complete enumeration of the 1728 well-formed theories and the named tables by vm_compute; generic induction for logic selection) + model/implementation correspondence",
-   text="Theorems in coq/props/C13.v, re-checked on every run against gen/Logics.v, which a fail-closed translator regenerates from pysmt/logics.py: Theory.__le__ is a partial order and combine an upper bound on all well-formed theories; Logic.__le__ is a partial order on the named tables; get_closer_logic/most_generic_logic (hand model, correspondence-checked) return a supported logic above the target with none strictly between, for every admissible supported list. Detection (TheoryOracle/get_logic) is modelled in models/TheoryOracle.v, correspondence-checked on generated formulas, and checked against an independent feature extraction.",
-   note="Trusted: Coq kernel + vm_compute, the Python-ast translator (validated against the implementation on sampled inputs each run), the hand models (correspondence). Well-formedness of theories is a hypothesis (combine is not an upper bound otherwise). The detection clause has no Coq theorem yet (model + correspondence + oracle).",
+   text="Theorems in coq/props/C13.v, re-checked on every run against gen/Logics.v, which a fail-closed translator regenerates from pysmt/logics.py: Theory.__le__ is a partial order and combine an upper bound on all well-formed theories; Logic.__le__ is a partial order on the named tables; get_closer_logic/most_generic_logic (hand model, correspondence-checked) return a supported logic above the target with none strictly between, for every admissible supported list. Detection: for every term the theory computed by the model of TheoryOracle (models/TheoryOracle.v, correspondence-checked on generated formulas) enables every feature the term uses (C13_detect_covers, by induction over terms, one case per walk_* rule), is well-formed, and any logic above the detected pair covers the formula (C13_get_logic_covers); an independent feature extraction is run against get_logic on the implementation.",
+   note="Trusted: Coq kernel + vm_compute, the Python-ast translator (validated against the implementation on sampled inputs each run), the hand models (correspondence). Well-formedness of theories is a hypothesis (combine is not an upper bound otherwise).",
    design="4 C13"),
  "C18": dict(
    technique="Coq proof over a hand model of optimizer.py (search interval, _optimize loop, boxed/lexicographic/pareto drivers, SUA and incremental mixins over the tracking solver's stack) for every sound and complete oracle (Section variable), plus trace-based model/implementation correspondence over a brute-force solver and an enumeration oracle",
